@@ -39,6 +39,7 @@ THEOREMS = [
     "C09_isolated",
     "C09_interface",
     "C09_input_by_value",
+    "C09_unused_argument",
     "C09_hint_checked_only_when_single_use",
 ]
 RULE = (
@@ -552,7 +553,8 @@ MALFORMED = [
     "setin - x c1",
     "setin 0..1 0 c1",
     "setout - 0",
-    "cfg 2",
+    "cfg 2 0",
+    "cfg 1",
     "run now",
     "call 1 0 c0",
 ]
@@ -643,7 +645,8 @@ _VARIANT = None
 
 
 def _variant():
-    """does the tree refuse a creator that returns the same channel twice? (fixed probe)"""
+    """which behaviours of the model's Cfg the tree shows (fixed probes, independent of the case):
+    [a creator returning one channel twice is refused, an unused parameter is linked to nothing]"""
     global _VARIANT
     if _VARIANT is None:
         from pyiron_workflow import as_macro_node
@@ -657,9 +660,19 @@ def _variant():
                 return self.c0, self.c0
 
             ProbeDupC09()
-            _VARIANT = [0]
+            dup = 0
         except Exception:  # noqa: BLE001
-            _VARIANT = [1]
+            dup = 1
+        try:
+            @as_macro_node("p")
+            def ProbeUnusedC09(self, x0="c1", x1="c2"):
+                self.c0 = nodes.F0(a=x0)
+                return self.c0
+
+            unlinked = 1 if ProbeUnusedC09().inputs.x1.value_receiver is None else 0
+        except Exception:  # noqa: BLE001
+            unlinked = 0
+        _VARIANT = [dup, unlinked]
     return _VARIANT
 
 
@@ -1012,8 +1025,8 @@ def nontrivial(case, r):
 def model_input(case, impl=None):
     if "malformed" in case:
         return list(case["malformed"])
-    v = (impl or {}).get("variant") or [0]
-    lines = [f"cfg {v[0]}", "def " + " ".join(node_toks(case["def"]))]
+    v = (impl or {}).get("variant") or [0, 0]
+    lines = [f"cfg {v[0]} {v[1]}", "def " + " ".join(node_toks(case["def"]))]
     kw = []
     for k, val in case["kwargs"]:
         kw += [str(k), *ptoks(val)]
